@@ -82,6 +82,10 @@ def proof_items():
         ProofItem(cm.mapspec_input_indices, gen=_ms_gen, bounded_only=True,
                   why_bounded="set comprehension with two generators"),
         ProofItem(cm.mapspec_output_key, gen=_okey_gen),
+        ProofItem(cm.mapspec_external_indices, gen=_ms_gen, bounded_only=True,
+                  why_bounded="filter by membership in a set built by a two-generator comprehension"),
+        # which element of every input the call with linear index l receives
+        ProofItem(cm.mapspec_input_keys, gen=_okey_gen),
     ]
 
 
